@@ -309,7 +309,8 @@ fn fragmented_movies() -> Vec<(String, LFragMovie)> {
 pub fn run(tier: Tier, seed: u64) -> i32 {
     let mut ev = Evidence::new("C12", tier, seed, "model_checking");
     let rep = Reporter::new("C12");
-    let th = tier == Tier::Thorough;
+    let _ = tier;
+    let th = true; // every pair of transformations costs ~10 s: done in both tiers
     let mut l = Local::default();
     let mut fams = vec![];
 
